@@ -169,24 +169,32 @@ Proof.
 Qed.
 
 (* ---------- the theorem ---------- *)
-(* the guard: a relative prefix without any name must be the text "." *)
-Definition plain_dot_or_named (q : str) : Prop := components q = [] -> q = dotstr.
+Lemma is_dot_parts_components q : q <> [] ->
+  is_dot_parts (parts q) = match components q with [] => true | _ => false end.
+Proof.
+  intro Hq. rewrite (parts_components q Hq). destruct (components q) as [|x t] eqn:E; [reflexivity|].
+  destruct (components_head q x t E) as [_ Hx]. destruct t; [|reflexivity]. simpl.
+  apply str_eqb_false. exact Hx.
+Qed.
 
 Theorem prefix_is_parts_prefix p q :
-  p <> [] -> q <> [] -> plain_dot_or_named q -> (q = dotstr -> is_abs p = rooted p) ->
+  p <> [] -> q <> [] -> (components q = [] -> is_abs p = rooted p) ->
   has_prefix_path p q = path_prefixb q p.
 Proof.
-  intros Hp Hq Hg Habs. unfold has_prefix_path.
+  intros Hp Hq Habs. unfold has_prefix_path.
   destruct (text_prefix p q) eqn:Et.
   - symmetry. apply text_prefix_sound; assumption.
   - destruct q as [|c0 q0] eqn:Eq0; [contradiction|]. rewrite <- Eq0 in *. simpl is_empty.
     replace (is_empty q) with false by (rewrite Eq0; reflexivity).
     destruct (str_eqb q dotstr) eqn:Ed.
-    + apply str_eqb_spec in Ed. rewrite (Habs Ed). rewrite Ed. unfold path_prefixb.
+    + apply str_eqb_spec in Ed. rewrite Ed in *. rewrite (Habs eq_refl). unfold path_prefixb.
       change (components dotstr) with (@nil str). change (rooted dotstr) with false.
       simpl. destruct (rooted p); reflexivity.
     + destruct (quick_reject p q) eqn:Eqr.
       * symmetry. apply quick_reject_ok. exact Eqr.
-      * apply parts_compare; try assumption.
-        intro Hc. apply Hg in Hc. apply str_eqb_false in Ed. contradiction.
+      * rewrite (is_dot_parts_components q Hq). destruct (components q) as [|x t] eqn:Ec.
+        -- (* "./", "./.": no component, relative *)
+           rewrite (Habs eq_refl). unfold path_prefixb. rewrite Ec.
+           apply components_nil in Ec as [Hr _]. rewrite Hr. simpl. destruct (rooted p); reflexivity.
+        -- apply parts_compare; try assumption. rewrite Ec. discriminate.
 Qed.
